@@ -150,7 +150,6 @@ def generate(tier, seed, ctx):
             try:
                 s = tlbkit.tree_to_cell(case['enc']).begin_parse()
                 obj = CLS[ty].deserialize(s)
-                rec['obs'] = tlbkit.observe(obj, case['flat'], case.get('base', ty))
                 rec['rem'] = {'bits': s.remaining_bits, 'refs': s.remaining_refs}
                 if ty == 'Message' and any(l['k'] == 'Cell' and l['path'] == ['body'] for l in case['flat']):
                     # body:(Either X ^X) with X = Any inline: "the rest of the cell" is the body; the library returns it with
@@ -158,6 +157,8 @@ def generate(tier, seed, ctx):
                     body = obj.body
                     if s.remaining_bits == len(body.bits) and s.remaining_refs == len(body.refs):
                         rec['rem'] = {'bits': 0, 'refs': 0}
+                tlbkit.drain(s)
+                rec['obs'] = tlbkit.observe(obj, case['flat'], case.get('base', ty))
             except RecursionError:
                 raise
             except Exception as e:
